@@ -196,12 +196,15 @@ func loadStateAtHeight(db kaidb.Database, height uint64) *LatestBlockState {
 		panic(fmt.Errorf(`block meta not found at height %v`, height))
 	}
 	state.LastBlockHeight = blockMeta.Header.Height
-	state.LastBlockID = blockMeta.BlockID
 	state.LastBlockTime = blockMeta.Header.Time
 	state.LastBlockTotalTx = blockMeta.Header.NumTxs
-
-	appHash := rawdb.ReadAppHash(db, height)
-	state.AppHash = appHash
+	if height > 0 {
+		// The state made at genesis has no last block: block 1 carries the zero
+		// LastBlockID and the zero AppHash, so these must not be taken from the
+		// genesis block when a node restarts before block 1 is committed.
+		state.LastBlockID = blockMeta.BlockID
+		state.AppHash = rawdb.ReadAppHash(db, height)
+	}
 
 	lValsInfo := rawdb.ReadConsensusValidatorsInfo(db, common.BytesToHash(sp.LastValidatorsInfoHash))
 	if state.LastBlockHeight > 0 {
